@@ -21,6 +21,7 @@ PROP_MODULES = {
     "C17": ["contracts.c17"],
     "C05": ["contracts.c05", "contracts.c05b"],
     "C08": ["contracts.c08"],
+    "C04": ["contracts.c04"],
 }
 
 
